@@ -452,7 +452,7 @@ fn main() {
                 t.reset(sys.reset_event());
                 let mut last = sys.obs();
                 for _ in 0..len {
-                    let dt = *pick(&mut r, &[0i64, 0, 0, 0, 1, 1, 2]);
+                    let dt = if r.gen_ratio(1, 25) { 3000 } else { *pick(&mut r, &[0i64, 0, 0, 0, 1, 1, 2]) };
                     let has_list = fl != "permissionless";
                     let kind = match r.gen_range(0..10) {
                         0..=4 => "forward",
